@@ -78,7 +78,7 @@ def bind(call, fn, skip_self=True):
             continue   # may be filled by *seq
         if p in sig['defaults']:
             b.defaulted.append(p)
-        elif b.dstar is not None:
+        elif b.dstar is not None and not sig['kwarg']:
             continue
         else:
             b.unbound.append(p)
